@@ -47,6 +47,9 @@ func (c *ctx) do(lhs string) {
 }
 
 func (c *ctx) finish() {
+	if cliDir != "" {
+		os.RemoveAll(cliDir)
+	}
 	c.w.Flush()
 	if c.statsOut != "" {
 		sf, _ := os.Create(c.statsOut)
@@ -122,6 +125,9 @@ func main() {
 				continue
 			}
 			fmt.Println(line + " | " + execLine(def, line))
+		}
+		if cliDir != "" {
+			os.RemoveAll(cliDir)
 		}
 		return
 	}
